@@ -31,19 +31,22 @@ func init() {
 func (c18) ID() string    { return "C18" }
 func (c18) Level() string { return "exploration" }
 func (c18) Rule() string {
-	return "A case is an upstream and a downstream git repository with seeded trees (nested directories, names with space, tab, quote, backslash, non-ASCII and glob characters, names that are prefixes of one another and of the downstream path), 1-2 propagation directives in either order (with or without upstream path — incl. the 'metadata' form gittuf generates for controllers —, downstream path with or without trailing slash; the second copies the whole upstream tree or another upstream subtree to its own downstream path), and a seeded schedule of steps: propagate (repeated 1-4 times), upstream records a new state (changing everything, only paths outside, or only paths inside the first directive's upstream path, so that one directive can be up to date while the other is stale), upstream revokes its latest entry, downstream gets an unrelated commit. After every propagate step the downstream tree and log are read back with `ls-tree -z` / `cat-file` and compared with the model: downstream path replaced by exactly the upstream's latest unskipped recorded subtree, every other path byte-identical, a propagation entry naming the upstream location and entry, and no commit and no entry when the content already matches. Distinct = distinct (tree-name classes, directive shape, step sequence, outcome vector); non-trivial = at least two propagate steps ran and the upstream changed between two of them or an odd name was present."
+	return "A case is an upstream and a downstream git repository with seeded trees (nested directories, names with space, tab, quote, backslash, non-ASCII and glob characters, names that are prefixes of one another and of the downstream path), 1-2 propagation directives in either order (with or without upstream path — incl. the 'metadata' form gittuf generates for controllers —, downstream path with or without trailing slash; the second copies the whole upstream tree or another upstream subtree to its own downstream path), and a seeded schedule of steps: propagate (repeated 1-4 times), upstream records a new state (changing everything, only paths outside, or only paths inside the first directive's upstream path, so that one directive can be up to date while the other is stale), upstream revokes its latest entry, downstream gets an unrelated commit. After every propagate step the downstream tree and log are read back with `ls-tree -z` / `cat-file` and compared with the model: downstream path replaced by exactly the upstream's latest unskipped recorded subtree, every other path byte-identical, a propagation entry naming the upstream location and entry, and no commit and no entry when the content already matches. Controller scenario (one case in eight): a controller repository and a network repository that names it in its root; nobody writes a directive — gittuf synthesises it (controller policy ref, upstream path metadata, downstream path gittuf-controller/<name>-<base64 location> in the policy ref) inside PropagateChangesFromUpstreamRepositories, which clones the controller; steps: propagate, the controller publishes a new policy state, the network repository edits its own policy; same oracle on the policy ref's tree and the log. Distinct = distinct (tree-name classes, directive shape, step sequence, outcome vector); non-trivial = at least two propagate steps ran and the upstream changed between two of them or an odd name was present."
 }
 func (c18) Components() map[string]string {
 	return map[string]string{"internal/propagation": "real", "pkg/gitinterface (tree.go, commit.go, references.go)": "real", "pkg/rsl": "real", "git 2.39 + tmpfs repositories": "real", "ground-truth reader": "harness (ls-tree -z, cat-file; not gitinterface's parsers)"}
 }
 func (c18) Assumptions() []string {
-	return []string{"upstream and downstream are local repositories (no network transport)", "propagation is invoked through internal/propagation with explicit directives; the policy-driven wrapper (PropagateChangesFromUpstreamRepositories) clones the upstream first and then calls the same function"}
+	return []string{"upstream and downstream are local repositories (no network transport)", "ordinary cases invoke internal/propagation with explicit directives; the policy-driven wrapper (PropagateChangesFromUpstreamRepositories, which clones the upstream and synthesises controller directives) runs in the controller scenario"}
 }
 
 var oddNames = []string{"a", "b", "dir/c", "sp ace", "dir/sp ace.txt", "tab\tname", "qu\"ote", "back\\slash", "ünï.txt", "日本/語", "st*r", "q?m", "[br]acket", "vendorx", "vendor-extra/x", "metadata/root.json", "metadata/targets.json", "sub/inner/deep.txt", "sub/f"}
 var plainNames = []string{"a", "b", "dir/c", "metadata/root.json", "metadata/targets.json", "sub/inner/deep.txt", "sub/f", "vendorx", "vendor-extra/x"}
 
-func (c18) Generate(r *core.Rand, tier string, idx uint64) *core.Case {
+func (d c18) Generate(r *core.Rand, tier string, idx uint64) *core.Case {
+	if c18IsControllerCase(idx) {
+		return d.generateController(r, tier, idx)
+	}
 	c := &core.Case{Property: "C18", Engine: "git", Config: map[string]int{}, Flags: map[string]bool{}, Strs: map[string]string{}}
 	c.Flags["odd"] = r.Chance(0.5)
 	c.Config["upPath"] = r.Intn(3)   // 0 none, 1 "sub", 2 "metadata"
@@ -103,6 +106,9 @@ func pickFiles(r *core.Rand, names []string, must []string, salt int) map[string
 }
 
 func (d c18) Execute(c *core.Case) (res *core.Result) {
+	if c.Flags["controller"] {
+		return d.executeController(c)
+	}
 	res = &core.Result{}
 	defer func() {
 		if r := recover(); r != nil {
